@@ -303,7 +303,9 @@ def head_repoint(ctx, rr):
     if not ok:
         fail(st, 'the stub target is not the current element of the batch')
     # set_previous(prior.block) under prior is not None, prior = previous stub or the old head
-    prior = sp.args[0].value.id if isinstance(sp.args[0], ast.Attribute) and isinstance(sp.args[0].value, ast.Name) and sp.args[0].attr == 'block' else None
+    from ..dataflow import resolve_locals as _rlh
+    sp_arg = _rlh(P, u, sp.args[0]) if sp.args else None          # `b = prior.block; stub.set_previous(b)` is the same pointer
+    prior = sp_arg.value.id if isinstance(sp_arg, ast.Attribute) and isinstance(sp_arg.value, ast.Name) and sp_arg.attr == 'block' else None
     facts = gf.facts_at(sp) or set()
     ok = prior is not None and (('T', '%s is not None' % prior) in {(f[0], f[1]) for f in facts})
     # the prior variable is set to the stub at the end of each iteration and initialised from the page's head under has_links
@@ -348,7 +350,8 @@ def head_repoint(ctx, rr):
     solid = itn is not None and any(isinstance(a, ast.Assign) and any(isinstance(t, ast.Name) and t.id == itn for t in a.targets) and isinstance(a.value, ast.Call)
                                     and isinstance(a.value.func, ast.Name) and a.value.func.id in ('list', 'tuple') and a.lineno < loop.lineno for a in P.own(u, ast.Assign))
     by_batch = solid and any(f[0] == 'T' and f[1].replace(' ', '') in (itn, 'len(%s)' % itn, 'len(%s)>0' % itn) for f in facts)
-    ok = (isinstance(sl.args[0], ast.Attribute) and ast.unparse(sl.args[0]) == '%s.block' % prior and not in_loop(P, u, sl)
+    sl_arg = _rlh(P, u, sl.args[0]) if sl.args else None
+    ok = (isinstance(sl_arg, ast.Attribute) and ast.unparse(sl_arg) == '%s.block' % prior and not in_loop(P, u, sl)
           and isinstance(dirv, ast.Name) and dirv.id == 'out'
           and (any(f[0] == 'F' and f[1] in flagvars for f in facts) or by_batch))
     rr.ob(ctx.where(u, sl), 'the page head is moved to the last stub written, same direction, only for a non-empty batch', ok=ok)
